@@ -17,6 +17,7 @@ import (
 	"time"
 
 	jsonpatch "github.com/evanphx/json-patch"
+	"k8s.io/apimachinery/pkg/api/meta"
 	metav1 "k8s.io/apimachinery/pkg/apis/meta/v1"
 	"k8s.io/apimachinery/pkg/runtime"
 	"k8s.io/apimachinery/pkg/runtime/schema"
@@ -25,6 +26,7 @@ import (
 	"k8s.io/client-go/discovery"
 	"k8s.io/client-go/kubernetes/scheme"
 	"k8s.io/client-go/rest/fake"
+	"k8s.io/client-go/restmapper"
 	cmdtesting "k8s.io/kubectl/pkg/cmd/testing"
 
 	"helm.sh/helm/v4/pkg/action"
@@ -355,6 +357,29 @@ func (k simKube) IsReachable() error {
 	return nil
 }
 
+// simFactory: the kubectl test factory plus a REST mapping for CustomResourceDefinition (the
+// chart's crds/ directory), so that the real kube.Client can build and create CRDs.
+type simFactory struct{ *cmdtesting.TestFactory }
+
+func (f simFactory) ToRESTMapper() (meta.RESTMapper, error) {
+	base, err := f.TestFactory.ToRESTMapper()
+	if err != nil {
+		return nil, err
+	}
+	gv := schema.GroupVersion{Group: "apiextensions.k8s.io", Version: "v1"}
+	crd := meta.NewDefaultRESTMapper([]schema.GroupVersion{gv})
+	crd.Add(gv.WithKind("CustomResourceDefinition"), meta.RESTScopeRoot)
+	return meta.MultiRESTMapper{base, crd}, nil
+}
+
+func (f simFactory) NewBuilder() *resource.Builder {
+	return resource.NewFakeBuilder(
+		func(schema.GroupVersion) (resource.RESTClient, error) { return f.UnstructuredClient, nil },
+		f.ToRESTMapper,
+		func() (restmapper.CategoryExpander, error) { return resource.FakeCategoryExpander, nil },
+	)
+}
+
 type simGetter struct{ *cmdtesting.TestFactory }
 
 func (r simGetter) ToDiscoveryClient() (discovery.CachedDiscoveryInterface, error) {
@@ -476,7 +501,7 @@ func (w *simWorld) close() { w.tf.Cleanup() }
 // cfg returns a fresh action configuration (as a fresh helm process would have) over the same
 // cluster and the same stored records.
 func (w *simWorld) cfg() *action.Configuration {
-	client := &kube.Client{Factory: w.tf}
+	client := &kube.Client{Factory: simFactory{w.tf}}
 	fd := faultDriver{inner: w.inner, decs: &w.decs, writes: &w.writes, frozen: &w.frozen, gate: w.gate}
 	return &action.Configuration{
 		RESTClientGetter: simGetter{w.tf},
